@@ -877,6 +877,9 @@ func (runInfo *runInfoStruct) invokeIncludeExpr(expr *ast.IncludeExpr) {
 		return
 	}
 
+	if runInfo.rv.Kind() == reflect.Interface && !runInfo.rv.IsNil() {
+		runInfo.rv = runInfo.rv.Elem()
+	}
 	if runInfo.rv.Kind() != reflect.Slice && runInfo.rv.Kind() != reflect.Array {
 		runInfo.err = newStringError(expr, "second argument must be slice or array; but have "+runInfo.rv.Kind().String())
 		runInfo.rv = nilValue
